@@ -51,9 +51,31 @@ func genService(r *lib.Rand, tier string) History {
 	}
 	var cs []gc
 	nfeeds, nrreq := 0, 0
+	// planned operations: pause / start pairs of the "idle gap" contexts (repeated, frequency = timeout + 3..9),
+	// placed uniformly over the period — in particular after a batch has expired and before the next one's
+	// scheduled height, where the context has a new-batch entry in the future and no expiration entry
+	planned := map[int][]Step{}
 	for b := 0; b < nblocks; b++ {
 		height := int64(b + 1)
 		rreqThisBlock := false
+		h.Steps = append(h.Steps, planned[b]...)
+		if b == 0 || (b < 12 && r.Chance(1, 4)) {
+			n := int64(1 + r.Intn(3))
+			f := n + 3 + int64(r.Intn(7))
+			st := Step{Op: "call", A: 0, N: n, F: true, M: f, C: -1, D: 1 + r.Intn(3)}
+			if r.Chance(1, 3) {
+				st.C = 3 + r.Intn(3)
+			}
+			h.Steps = append(h.Steps, st)
+			idx := len(cs)
+			cs = append(cs, gc{consumer: 0, provs: st.D, repeated: true, born: height, last: height + 1000})
+			for k := 0; k < 3; k++ {
+				p := b + 1 + r.Intn(int(2*f))
+				q := p + r.Intn(int(f))
+				planned[p] = append(planned[p], Step{Op: "pause", A: 0, B: idx})
+				planned[q] = append(planned[q], Step{Op: "start", A: 0, B: idx})
+			}
+		}
 		pick := func(want func(g gc) bool) int {
 			var ok []int
 			for i, g := range cs {
